@@ -16,16 +16,17 @@ structure ColForm (σ : Type) where
   str : σ → Str
   bp : σ → Bp.ColBp
   col : σ → Column
-  ok : σ → Prop
+  /-- what makes the column readable back, under a given value of the properties switch -/
+  ok : Bool → σ → Prop
   quoted : ∀ s, ∃ r, str s = '"' :: r
   parse : ∀ (props : Bool) (c : Cur) (s : σ) (rest : Str),
-    c.rest = ' ' :: ' ' :: ' ' :: ' ' :: (str s ++ '\n' :: rest) → c.pastEnd = false → ok s →
+    c.rest = ' ' :: ' ' :: ' ' :: ' ' :: (str s ++ '\n' :: rest) → c.pastEnd = false → ok props s →
     ∃ c', tableColumn props c = .ok (bp s) c' ∧ c'.rest = rest ∧ c'.pastEnd = false
-  noTab : ∀ s, ok s → ∀ ch ∈ str s, ch ≠ '\t'
-  lineOK : ∀ s, ok s → LineOK (str s)
+  noTab : ∀ ap s, ok ap s → ∀ ch ∈ str s, ch ≠ '\t'
+  lineOK : ∀ ap s, ok ap s → LineOK (str s)
   norefs : ∀ s, (bp s).refs = []
-  build : ∀ s, ok s → buildColumn [] (bp s) = .ok (col s)
-  render : ∀ (ap : Bool) (ts : List Table) (ti ci : Nat) (s : σ), ok s →
+  build : ∀ ap s, ok ap s → buildColumn [] (bp s) = .ok (col s)
+  render : ∀ (ap : Bool) (ts : List Table) (ti ci : Nat) (s : σ), ok ap s →
     Dbml.renderColumn { tables := ts, allowProps := ap } ti ci (col s) = .ok (str s)
 
 variable {σ : Type}
@@ -43,7 +44,7 @@ def ColForm.tableBp (F : ColForm σ) (tn : Str) (cs : List σ) : Bp.TableBp :=
 
 def ColForm.table (F : ColForm σ) (tn : Str) (cs : List σ) : Table := { name := tn, columns := cs.map F.col }
 
-def ColForm.allOK (F : ColForm σ) (cs : List σ) : Prop := ∀ s ∈ cs, F.ok s
+def ColForm.allOK (F : ColForm σ) (ap : Bool) (cs : List σ) : Prop := ∀ s ∈ cs, F.ok ap s
 
 theorem ColForm.body_next (F : ColForm σ) (cs : List σ) (tail : Str) :
     ∃ k x r, F.text cs ++ '}' :: tail = List.replicate k ' ' ++ x :: r ∧ isWs x = false ∧ x ≠ '\n' ∧ x ≠ '/'
@@ -63,7 +64,7 @@ theorem ColForm.skipNl_stay_body (F : ColForm σ) (c : Cur) (cs : List σ) (tail
   exact skipNl_stay c q1 q2
 
 theorem ColForm.tableElement_col (F : ColForm σ) (props : Bool) (c : Cur) (s : σ) (cs : List σ) (tail : Str)
-    (hc : c.rest = F.text (s :: cs) ++ '}' :: tail) (hp : c.pastEnd = false) (hs : F.ok s) :
+    (hc : c.rest = F.text (s :: cs) ++ '}' :: tail) (hp : c.pastEnd = false) (hs : F.ok props s) :
     ∃ c', tableElement props c = .ok (TblElem.column (F.bp s)) c'
       ∧ c'.rest = F.text cs ++ '}' :: tail ∧ c'.pastEnd = false := by
   have hs0 : skipNl c = .ok () c := F.skipNl_stay_body c (s :: cs) tail hc
@@ -77,7 +78,7 @@ theorem ColForm.text_cons_length (F : ColForm σ) (s : σ) (cs : List σ) :
     (F.text cs).length + 5 ≤ (F.text (s :: cs)).length := by
   simp [ColForm.text] <;> omega
 
-theorem ColForm.many_body (F : ColForm σ) (props : Bool) (cs : List σ) (tail : Str) (hcs : F.allOK cs) :
+theorem ColForm.many_body (F : ColForm σ) (props : Bool) (cs : List σ) (tail : Str) (hcs : F.allOK props cs) :
     ∀ (fuel : Nat) (c : Cur), cs.length < fuel → c.rest = F.text cs ++ '}' :: tail → c.pastEnd = false →
       ∃ c', many (tableElement props) fuel c = .ok ((cs.map F.bp).map TblElem.column) c'
         ∧ c'.rest = '}' :: tail ∧ c'.pastEnd = false := by
@@ -126,7 +127,7 @@ theorem foldl_colsG {β} (bs : List Bp.ColBp) (f : β → TblElem → β)
 /-- the table rule on the rendered text of one table at the end of the document -/
 theorem ColForm.tableRule_ok (F : ColForm σ) (props : Bool) (c : Cur) (tn : Str) (cs : List σ)
     (hc : c.rest = F.tableText tn cs) (hp : c.pastEnd = false) (hprev : c.prev = none)
-    (htn : NameOK tn) (hcs : F.allOK cs) (hne : cs ≠ []) :
+    (htn : NameOK tn) (hcs : F.allOK props cs) (hne : cs ≠ []) :
     ∃ c', tableRule props c = .ok (F.tableBp tn cs) c' ∧ c'.rest = [] ∧ c'.pastEnd = true := by
   have hN : Next c 'T' _ := skipWs_rest_head c 'T' _ (by rw [hc]; rfl) (by decide)
   obtain ⟨q1, q2⟩ := quiet_of_next c 'T' _ hN (by decide) (by decide)
@@ -199,7 +200,7 @@ theorem ColForm.tableRule_ok (F : ColForm σ) (props : Bool) (c : Cur) (tn : Str
 
 /-! ### the document and the build -/
 
-theorem ColForm.text_no_tab (F : ColForm σ) (cs : List σ) (hcs : F.allOK cs) : ∀ c ∈ F.text cs, c ≠ '\t' := by
+theorem ColForm.text_no_tab (F : ColForm σ) (ap : Bool) (cs : List σ) (hcs : F.allOK ap cs) : ∀ c ∈ F.text cs, c ≠ '\t' := by
   induction cs with
   | nil => intro c hc; simp [ColForm.text] at hc
   | cons s r ih =>
@@ -209,11 +210,11 @@ theorem ColForm.text_no_tab (F : ColForm σ) (cs : List σ) (hcs : F.allOK cs) :
     simp only [List.mem_append] at hc
     rcases hc with ((h | h) | h) | h
     · exact (by decide : ∀ c ∈ [' ', ' ', ' ', ' '], c ≠ '\t') c h
-    · exact F.noTab s (hcs s (by simp)) c h
+    · exact F.noTab ap s (hcs s (by simp)) c h
     · exact (by decide : ∀ c ∈ ['\n'], c ≠ '\t') c h
     · exact ih (fun q hq => hcs q (by simp [hq])) c h
 
-theorem ColForm.tableText_no_tab (F : ColForm σ) (tn : Str) (cs : List σ) (htn : NameOK tn) (hcs : F.allOK cs) :
+theorem ColForm.tableText_no_tab (F : ColForm σ) (ap : Bool) (tn : Str) (cs : List σ) (htn : NameOK tn) (hcs : F.allOK ap cs) :
     ∀ c ∈ F.tableText tn cs, c ≠ '\t' := by
   intro c hc
   have e : F.tableText tn cs = ['T', 'a', 'b', 'l', 'e', ' ', '"'] ++ tn ++ ['"', ' ', '{', '\n'] ++ F.text cs ++ ['}'] := by
@@ -224,14 +225,14 @@ theorem ColForm.tableText_no_tab (F : ColForm σ) (tn : Str) (cs : List σ) (htn
   · exact (by decide : ∀ c ∈ ['T', 'a', 'b', 'l', 'e', ' ', '"'], c ≠ '\t') c h
   · exact (htn c h).2.2.2
   · exact (by decide : ∀ c ∈ ['"', ' ', '{', '\n'], c ≠ '\t') c h
-  · exact F.text_no_tab cs hcs c h
+  · exact F.text_no_tab ap cs hcs c h
   · exact (by decide : ∀ c ∈ ['}'], c ≠ '\t') c h
 
 theorem ColForm.parseDoc_table (F : ColForm σ) (ap : Bool) (tn : Str) (cs : List σ) (htn : NameOK tn)
-    (hcs : F.allOK cs) (hne : cs ≠ []) :
+    (hcs : F.allOK ap cs) (hne : cs ≠ []) :
     ∃ c', parseDoc ap (F.tableText tn cs) = .ok [Bp.Elem.table (F.tableBp tn cs)] c' := by
   unfold parseDoc expandTabs
-  rw [expandTabsAux_plain 0 _ (F.tableText_no_tab tn cs htn hcs)]
+  rw [expandTabsAux_plain 0 _ (F.tableText_no_tab ap tn cs htn hcs)]
   let c0 : Cur := { rest := F.tableText tn cs }
   obtain ⟨c8, hst, hr8, hp8⟩ := F.tableRule_ok ap c0 tn cs rfl rfl rfl htn hcs hne
   have hel : element ap c0 = .ok (Bp.Elem.table (F.tableBp tn cs)) c8 := by
@@ -260,11 +261,11 @@ theorem mapM_ok_map_mem {α β ε} (f : α → Except ε β) (g : α → β) :
     intro h
     rw [List.mapM_cons, h x (by simp), ih (fun a ha => h a (by simp [ha]))]; rfl
 
-theorem ColForm.build_table (F : ColForm σ) (ap : Bool) (tn : Str) (cs : List σ) (hcs : F.allOK cs) :
+theorem ColForm.build_table (F : ColForm σ) (ap : Bool) (tn : Str) (cs : List σ) (hcs : F.allOK ap cs) :
     buildDatabase ap [Bp.Elem.table (F.tableBp tn cs)] = .ok { tables := [F.table tn cs], allowProps := ap } := by
   have hcols : (cs.map F.bp).mapM (buildColumn []) = .ok (cs.map F.col) := by
     rw [List.mapM_map]
-    exact mapM_ok_map_mem _ _ cs (fun s hs => F.build s (hcs s hs))
+    exact mapM_ok_map_mem _ _ cs (fun s hs => F.build ap s (hcs s hs))
   have ht : buildTable [] (F.tableBp tn cs) = .ok (F.table tn cs) := by
     simp [buildTable, ColForm.tableBp, buildNote, hcols, ColForm.table, bind, Except.bind, pure, Except.pure]
   have hrefs : refBlueprints [Bp.Elem.table (F.tableBp tn cs)] = [] := by
@@ -298,7 +299,7 @@ theorem ColForm.text_flatMap (F : ColForm σ) (cs : List σ) :
   | nil => rfl
   | cons s r ih => simp [ColForm.text, ih]
 
-theorem ColForm.renderDb_table (F : ColForm σ) (ap : Bool) (tn : Str) (cs : List σ) (hcs : F.allOK cs) (hne : cs ≠ []) :
+theorem ColForm.renderDb_table (F : ColForm σ) (ap : Bool) (tn : Str) (cs : List σ) (hcs : F.allOK ap cs) (hne : cs ≠ []) :
     Dbml.renderDb { tables := [F.table tn cs], allowProps := ap } = .ok (F.tableText tn cs) := by
   have hcols : (List.range (F.table tn cs).columns.length).mapM (fun ci => do
       let c ← getD? (F.table tn cs).columns ci "column position"
@@ -312,7 +313,7 @@ theorem ColForm.renderDb_table (F : ColForm σ) (ap : Bool) (tn : Str) (cs : Lis
     · simpa using hne
     · intro l hl
       obtain ⟨s, hs, rfl⟩ := List.mem_map.mp hl
-      exact F.lineOK s (hcs s hs)
+      exact F.lineOK ap s (hcs s hs)
     · intro l hl
       obtain ⟨s, hs, rfl⟩ := List.mem_map.mp hl
       obtain ⟨q, hq⟩ := F.quoted s
@@ -332,7 +333,7 @@ theorem ColForm.renderDb_table (F : ColForm σ) (ap : Bool) (tn : Str) (cs : Lis
 
 /-- **C02 for one table whose columns are written in any form that is read back** -/
 theorem form_roundtrip (F : ColForm σ) (ap : Bool) (tn : Str) (cs : List σ)
-    (htn : NameOK tn) (hcs : F.allOK cs) (hne : cs ≠ []) :
+    (htn : NameOK tn) (hcs : F.allOK ap cs) (hne : cs ≠ []) :
     ∃ text, Dbml.renderDb { tables := [F.table tn cs], allowProps := ap } = .ok text
       ∧ Build.parse ap text = .ok { tables := [F.table tn cs], allowProps := ap } := by
   refine ⟨F.tableText tn cs, F.renderDb_table ap tn cs hcs hne, ?_⟩
